@@ -5,7 +5,16 @@ import "math"
 // RNG is splitmix64; every random choice of a run derives from one seed.
 type RNG struct{ s uint64 }
 
-func NewRNG(seed uint64) *RNG { return &RNG{s: seed*0x9E3779B97F4A7C15 + 0x1234567} }
+// NewRNG scrambles the seed first: consecutive seeds (the shards of one run) must not give streams that
+// are shifted copies of one another, which a state of seed*increment would.
+func NewRNG(seed uint64) *RNG {
+	z := seed + 0x632BE59BD9B4E019
+	z = (z ^ (z >> 30)) * 0xBF58476D1CE4E5B9
+	z = (z ^ (z >> 27)) * 0x94D049BB133111EB
+	z ^= z >> 31
+	z = (z ^ (z >> 33)) * 0xFF51AFD7ED558CCD
+	return &RNG{s: z ^ (z >> 29)}
+}
 func (r *RNG) U64() uint64 {
 	r.s += 0x9E3779B97F4A7C15
 	z := r.s
